@@ -30,6 +30,11 @@ pub struct KeySpec {
     /// run only if the rewriting turned out to release the keys without thresholding.
     #[serde(default)]
     pub ambiguous: bool,
+    /// What GROUP BY names when it is not `expr` itself: the shape `SELECT f(c) AS c ... GROUP BY c`
+    /// where the SELECT alias shadows the input column the grouping is on (SQL groups on the
+    /// input column; output keys are then not unique).
+    #[serde(default)]
+    pub group_expr: Option<String>,
 }
 
 #[derive(Serialize, Deserialize, Clone, Copy, Debug, PartialEq, Eq, Hash)]
@@ -142,7 +147,7 @@ impl QuerySpec {
         items.extend(self.aggs.iter().map(|a| format!("{} AS {}", a.sql(population), a.alias)));
         let mut s = format!("SELECT {} FROM {}{}", items.join(", "), self.from_clause(), self.where_clause());
         if !self.keys.is_empty() {
-            let g: Vec<String> = self.keys.iter().map(|k| k.expr.clone()).collect();
+            let g: Vec<String> = self.keys.iter().map(|k| k.group_expr.clone().unwrap_or_else(|| k.expr.clone())).collect();
             s.push_str(&format!(" GROUP BY {}", g.join(", ")));
         }
         if let Some(h) = &self.having {
